@@ -17,7 +17,10 @@ MODS = {'photutils.aperture.bounding_box', 'photutils.aperture.core', 'photutils
         'photutils.detection.core', 'photutils.detection.daofinder', 'photutils.detection.irafstarfinder',
         'photutils.detection.starfinder', 'photutils.centroids.core', 'photutils.centroids.gaussian',
         'photutils.profiles.core', 'photutils.profiles.radial_profile', 'photutils.profiles.curve_of_growth',
-        'photutils.datasets.images', 'photutils.utils._moments', 'photutils.utils.cutouts'}
+        'photutils.datasets.images', 'photutils.utils._moments', 'photutils.utils.cutouts',
+        'photutils.segmentation.utils', 'photutils.segmentation.core', 'photutils.segmentation.deblend',
+        'photutils.aperture.circle', 'photutils.aperture.ellipse', 'photutils.aperture.rectangle',
+        'photutils.datasets.model_params', 'photutils.psf.model_helpers', 'photutils.utils._stats'}
 CLASSES = ['photutils.segmentation.catalog.SourceCatalog', 'photutils.aperture.stats.ApertureStats']
 ORIGIN_RE = re.compile(r'(bbox_xmin|bbox_ymin|\.start|ixmin|iymin|cutout_xorigin|cutout_yorigin)')
 
@@ -122,6 +125,8 @@ def run(repo, tier):
     from .C17 import gaussian_rules, paired_slicing
     gaussian_rules(repo, res)
     paired_slicing(repo, res)
+    from .C01 import extent_rules
+    extent_rules(repo, res)
     run_axis(repo, res, MODS)
     res.floor('T-FRAME-pairs', 6)
     res.floor('T-AXIS', 150)
